@@ -31,8 +31,10 @@ def setup(ctx):
 
 def _plan(tier, seed):
     if tier == "quick":
-        return [{"n_cases": 200, "mode": "A", "hashseed": i % 3} for i in range(8)]
-    return [{"n_cases": 4000, "mode": "A", "hashseed": i % 4} for i in range(14)]
+        return [{"n_cases": 200, "mode": "A", "hashseed": i % 3} for i in range(8)] + \
+               [{"n_cases": 2, "mode": "A", "params": {"xlarge": prof}, "hashseed": i % 2} for i, prof in enumerate(["cells", "wide", "tall"])]
+    return [{"n_cases": 4000, "mode": "A", "hashseed": i % 4} for i in range(14)] + \
+           [{"n_cases": 6, "mode": "A", "params": {"xlarge": prof}, "hashseed": i} for i, prof in enumerate(["cells", "wide", "tall", "cells"])]
 
 def plan(tier, seed):
     """+ one shard running the repository's own tests under the monitors (vf/pytest_plugin.py)"""
@@ -43,6 +45,17 @@ def plan(tier, seed):
 
 
 def gen_case(rng, ctx):
+    if ctx.params.get("xlarge"):
+        # views of large datasets (matrices of 10 000+ cells, 63-1025 elements, 40-257 rankings) through a short history
+        from vf.monitors import large
+        case = large.gen_large(rng, profiles=[ctx.params["xlarge"]], index=ctx.index)
+        ds = case["ds"]
+        if case["n"] > 300:
+            keep = set(case["base"][:300])
+            ds = [[[e for e in b if e in keep] for b in r] for r in ds]
+            ds = [[b for b in r if b] for r in ds]
+        return {"ds": ds, "names_kind": "int", "dcls": "xlarge", "ops": [rng.choice(OPS) for _ in range(rng.randint(2, 4))],
+                "opseed": rng.randrange(10 ** 6), "via": rng.choice(["constructor", "from_raw_list"])}
     kind = rng.choice(["int", "bigint", "str", "intlike", "mixed_str", "mixed_str", "int_and_str", "digits_plus_word", "almost_int",
                        "negint"])
     n = rng.randint(2, 8)
@@ -115,6 +128,10 @@ def check_case(case, ctx):
                               "the documented EmptyDatasetException", case)
     model = model_normalise(ds0)
     ctx.count("histories")
+    if case.get("dcls") == "xlarge":
+        ctx.count("xlarge_histories")
+        if len(ref.universe(ds0)) * len(ds0) >= 10000:
+            ctx.count("xlarge_histories_10000_cells")
     ctx.count("names:" + case["names_kind"])
     probs = common.dataset_problems(d) + common.drain_invariant_problems()
     if real_state(d) != model_state(model):
@@ -327,7 +344,9 @@ def prev_any_mut(case, step):
 def reach(counters, tier, info):
     k = 0.5 if tier == "quick" else 20
     out = []
-    for name, key, need in [("remove_elements calls", "op:remove_subset", 500 * k), ("rate filters", "op:rate", 500 * k),
+    for name, key, need in [("histories on datasets of 63-300 elements / up to 257 rankings", "xlarge_histories", 5 if tier == "quick" else 20),
+                            ("... of at least 10 000 (element, ranking) cells", "xlarge_histories_10000_cells", 2 if tier == "quick" else 8),
+                            ("remove_elements calls", "op:remove_subset", 500 * k), ("rate filters", "op:rate", 500 * k),
                             ("remove_empty_rankings calls", "op:remove_empty", 200 * k),
                             ("mutations that shrink the universe", "mutations_shrinking_universe", 100 * k),
                             ("mutations that drop a ranking", "mutations_dropping_a_ranking", 100 * k),
